@@ -126,7 +126,9 @@ class XMLParserMixin(
         "http://www.w3.org/XML/1998/namespace": "xml",
         "http://podlove.org/simple-chapters": "psc",
     }
-    _matchnamespaces: Dict[str, str] = {}
+    # lower-cased view of ``namespaces``, built once at class creation: filling
+    # it lazily from ``__init__`` let a concurrent first parse see a partial map
+    _matchnamespaces: Dict[str, str] = {k.lower(): v for k, v in namespaces.items()}
 
     can_be_relative_uri = {
         "comments",
@@ -171,9 +173,6 @@ class XMLParserMixin(
     }
 
     def __init__(self):
-        if not self._matchnamespaces:
-            for k, v in self.namespaces.items():
-                self._matchnamespaces[k.lower()] = v
         self.feeddata = FeedParserDict()  # feed-level data
         self.entries = []  # list of entry-level data
         self.version = ""  # feed type/version, see SUPPORTED_VERSIONS
